@@ -1059,12 +1059,10 @@ func (e *Engine) gotoBlock(st *State, b *ssa.BasicBlock) []*State {
 					if _, isB := c.Value.(*ssa.Builtin); isB {
 						continue
 					}
-					if c.IsInvoke() {
-						callees = append(callees, e.P.methodsImplementing(c.Value.Type(), c.Method)...)
-					} else if callee := c.StaticCallee(); callee != nil {
+					if callee := c.StaticCallee(); callee != nil {
 						callees = append(callees, callee)
 					} else {
-						unknown = true
+						callees = append(callees, e.P.siteCallees(fr.fn, c)...)
 					}
 				}
 			}
